@@ -1,13 +1,993 @@
-//! Independent reader/writer for the JavaScript Hypercore 10 on-disk layout (C06).
-use crate::world::World;
-pub fn judge_layout(_w: &mut World, _n: usize) {}
+//! Independent reader and writer for the JavaScript Hypercore 10 on-disk layout (C06), written
+//! from the layout rules, not from the crate: own compact-encoding (varint 0xfd/0xfe/0xff,
+//! buffers, arrays), own CRC-32 (IEEE, table driven), header slots at 0/4096 chosen by header
+//! bits, entries from 8192 with leader `crc32 | len<<2 | partial<<1 | bit`, entry flags 1/2/4/8,
+//! bitfield pages of 4096 B little-endian u32 words, tree nodes of 40 B, data concatenation.
+
+use crate::disk::{Files, BITFIELD, DATA, OPLOG, TREE};
 use crate::harness::CaseOut;
+use crate::merkle::{ft, RefTree, H32};
+use crate::model::{payload, Blk, Model};
+use crate::world::{Viol, World};
+use ed25519_dalek::{Signer, SigningKey, Verifier};
 use serde::{Deserialize, Serialize};
-#[derive(Clone, Debug, Serialize, Deserialize, PartialEq, Default)]
-pub struct JsStoreSpec {}
-pub fn run_golden() -> CaseOut {
-    CaseOut::default()
+use std::collections::BTreeMap;
+
+// ------------------------------------------------------------------------------- primitives
+
+pub fn crc32(data: &[u8]) -> u32 {
+    static TABLE: std::sync::OnceLock<[u32; 256]> = std::sync::OnceLock::new();
+    let t = TABLE.get_or_init(|| {
+        let mut t = [0u32; 256];
+        for i in 0..256u32 {
+            let mut c = i;
+            for _ in 0..8 {
+                c = if c & 1 != 0 { 0xEDB88320 ^ (c >> 1) } else { c >> 1 };
+            }
+            t[i as usize] = c;
+        }
+        t
+    });
+    let mut c = 0xFFFF_FFFFu32;
+    for b in data {
+        c = t[((c ^ *b as u32) & 0xff) as usize] ^ (c >> 8);
+    }
+    c ^ 0xFFFF_FFFF
 }
-pub fn run_js_store(_s: &JsStoreSpec) -> CaseOut {
-    CaseOut::default()
+
+pub struct Rd<'a> {
+    pub b: &'a [u8],
+    pub p: usize,
+}
+impl<'a> Rd<'a> {
+    pub fn new(b: &'a [u8]) -> Self {
+        Rd { b, p: 0 }
+    }
+    pub fn u8(&mut self) -> Result<u8, String> {
+        let v = *self.b.get(self.p).ok_or("out of data (u8)")?;
+        self.p += 1;
+        Ok(v)
+    }
+    pub fn take(&mut self, n: usize) -> Result<&'a [u8], String> {
+        if self.p + n > self.b.len() {
+            return Err(format!("out of data (need {n} at {})", self.p));
+        }
+        let s = &self.b[self.p..self.p + n];
+        self.p += n;
+        Ok(s)
+    }
+    pub fn uint(&mut self) -> Result<u64, String> {
+        let f = self.u8()?;
+        Ok(match f {
+            0xfd => u16::from_le_bytes(self.take(2)?.try_into().unwrap()) as u64,
+            0xfe => u32::from_le_bytes(self.take(4)?.try_into().unwrap()) as u64,
+            0xff => u64::from_le_bytes(self.take(8)?.try_into().unwrap()),
+            x => x as u64,
+        })
+    }
+    pub fn buffer(&mut self) -> Result<&'a [u8], String> {
+        let n = self.uint()? as usize;
+        self.take(n)
+    }
+}
+
+pub fn w_uint(out: &mut Vec<u8>, v: u64) {
+    if v <= 0xfc {
+        out.push(v as u8);
+    } else if v <= 0xffff {
+        out.push(0xfd);
+        out.extend_from_slice(&(v as u16).to_le_bytes());
+    } else if v <= 0xffff_ffff {
+        out.push(0xfe);
+        out.extend_from_slice(&(v as u32).to_le_bytes());
+    } else {
+        out.push(0xff);
+        out.extend_from_slice(&v.to_le_bytes());
+    }
+}
+pub fn w_buffer(out: &mut Vec<u8>, b: &[u8]) {
+    w_uint(out, b.len() as u64);
+    out.extend_from_slice(b);
+}
+
+// ------------------------------------------------------------------------------- messages
+
+#[derive(Clone, Debug, PartialEq, Default)]
+pub struct JsHeader {
+    pub key: Vec<u8>,
+    pub manifest_pk: Option<Vec<u8>>,
+    pub public_key: Vec<u8>,
+    pub secret_key: Option<Vec<u8>>,
+    pub fork: u64,
+    pub length: u64,
+    pub root_hash: Vec<u8>,
+    pub signature: Vec<u8>,
+    pub contiguous_length: u64,
+}
+
+#[derive(Clone, Debug, PartialEq, Default)]
+pub struct JsEntry {
+    pub tree_nodes: Vec<(u64, u64, H32)>,
+    pub upgrade: Option<(u64, u64, u64, Vec<u8>)>, // fork, ancestors, length, signature
+    pub bitfield: Option<(bool, u64, u64)>,        // drop, start, length
+    pub partial: bool,
+    pub byte_length: usize,
+}
+
+pub fn decode_header(b: &[u8]) -> Result<JsHeader, String> {
+    let mut r = Rd::new(b);
+    let version = r.u8()?;
+    if version != 1 {
+        return Err(format!("header version {version}"));
+    }
+    let flags = r.u8()?;
+    if flags & 1 != 0 {
+        return Err("external header not supported".into());
+    }
+    let mut h = JsHeader { key: r.take(32)?.to_vec(), ..Default::default() };
+    if flags & 2 != 0 {
+        let mv = r.u8()?; // manifest version
+        let hash = r.u8()?;
+        let ty = r.u8()?;
+        if mv != 0 || hash != 0 || ty != 1 {
+            return Err(format!("manifest version/hash/type {mv}/{hash}/{ty}"));
+        }
+        let sig = r.u8()?;
+        if sig != 0 {
+            return Err("manifest signer signature id".into());
+        }
+        let _namespace = r.take(32)?;
+        h.manifest_pk = Some(r.take(32)?.to_vec());
+    }
+    if flags & 4 != 0 {
+        h.public_key = r.buffer()?.to_vec();
+        let sk = r.buffer()?;
+        h.secret_key = if sk.is_empty() { None } else { Some(sk.to_vec()) };
+    }
+    // userData: array of { key: string, value: buffer }
+    let n = r.uint()?;
+    for _ in 0..n {
+        let _k = r.buffer()?;
+        let _v = r.buffer()?;
+    }
+    h.fork = r.uint()?;
+    h.length = r.uint()?;
+    h.root_hash = r.buffer()?.to_vec();
+    h.signature = r.buffer()?.to_vec();
+    // hints: reorgs array of {from, to, ancestors}, contiguousLength
+    let n = r.uint()?;
+    for _ in 0..n {
+        r.uint()?;
+        r.uint()?;
+        r.uint()?;
+    }
+    h.contiguous_length = r.uint()?;
+    Ok(h)
+}
+
+pub fn encode_header(h: &JsHeader) -> Vec<u8> {
+    let mut o = vec![1u8, 2 | 4];
+    o.extend_from_slice(&h.key);
+    // manifest: version 0, hash blake2b (0), type single signer (1), signer: ed25519 (0), namespace, pk
+    o.extend_from_slice(&[0, 0, 1, 0]);
+    o.extend_from_slice(&DEFAULT_NAMESPACE);
+    o.extend_from_slice(h.manifest_pk.as_ref().unwrap_or(&h.public_key));
+    w_buffer(&mut o, &h.public_key);
+    match &h.secret_key {
+        Some(sk) => w_buffer(&mut o, sk),
+        None => w_uint(&mut o, 0),
+    }
+    w_uint(&mut o, 0); // userData
+    w_uint(&mut o, h.fork);
+    w_uint(&mut o, h.length);
+    w_buffer(&mut o, &h.root_hash);
+    w_buffer(&mut o, &h.signature);
+    w_uint(&mut o, 0); // reorgs
+    w_uint(&mut o, h.contiguous_length);
+    o
+}
+
+// published default signer namespace (hypercore lib/caps.js DEFAULT_NAMESPACE)
+pub const DEFAULT_NAMESPACE: [u8; 32] = [
+    0x41, 0x44, 0xEE, 0xA5, 0x31, 0xE4, 0x83, 0xD5, 0x4E, 0x0C, 0x14, 0xF4, 0xCA, 0x68, 0xE0, 0x64,
+    0x4F, 0x35, 0x53, 0x43, 0xFF, 0x6F, 0xCB, 0x0F, 0x00, 0x52, 0x00, 0xE1, 0x2C, 0xD7, 0x47, 0xCB,
+];
+
+pub fn decode_entry(b: &[u8]) -> Result<JsEntry, String> {
+    let mut r = Rd::new(b);
+    let flags = r.u8()?;
+    let mut e = JsEntry::default();
+    if flags & 1 != 0 {
+        let n = r.uint()?;
+        for _ in 0..n {
+            let _k = r.buffer()?;
+            let _v = r.buffer()?;
+        }
+    }
+    if flags & 2 != 0 {
+        let n = r.uint()?;
+        for _ in 0..n {
+            let index = r.uint()?;
+            let size = r.uint()?;
+            let hash: H32 = r.take(32)?.try_into().unwrap();
+            e.tree_nodes.push((index, size, hash));
+        }
+    }
+    if flags & 4 != 0 {
+        let fork = r.uint()?;
+        let ancestors = r.uint()?;
+        let length = r.uint()?;
+        let sig = r.buffer()?.to_vec();
+        e.upgrade = Some((fork, ancestors, length, sig));
+    }
+    if flags & 8 != 0 {
+        let f = r.u8()?;
+        let start = r.uint()?;
+        let length = r.uint()?;
+        e.bitfield = Some((f & 1 != 0, start, length));
+    }
+    Ok(e)
+}
+
+pub fn encode_entry(e: &JsEntry) -> Vec<u8> {
+    let mut o = vec![0u8];
+    let mut flags = 0u8;
+    if !e.tree_nodes.is_empty() {
+        flags |= 2;
+        w_uint(&mut o, e.tree_nodes.len() as u64);
+        for (i, s, h) in &e.tree_nodes {
+            w_uint(&mut o, *i);
+            w_uint(&mut o, *s);
+            o.extend_from_slice(h);
+        }
+    }
+    if let Some((fork, anc, len, sig)) = &e.upgrade {
+        flags |= 4;
+        w_uint(&mut o, *fork);
+        w_uint(&mut o, *anc);
+        w_uint(&mut o, *len);
+        w_buffer(&mut o, sig);
+    }
+    if let Some((drop, start, len)) = &e.bitfield {
+        flags |= 8;
+        o.push(if *drop { 1 } else { 0 });
+        w_uint(&mut o, *start);
+        w_uint(&mut o, *len);
+    }
+    o[0] = flags;
+    o
+}
+
+/// frame = crc32(len word || payload) LE, (len<<2 | partial<<1 | header bit) LE, payload
+pub fn frame(payload: &[u8], header_bit: bool, partial: bool) -> Vec<u8> {
+    let word: u32 = ((payload.len() as u32) << 2) | if partial { 2 } else { 0 } | header_bit as u32;
+    let mut body = word.to_le_bytes().to_vec();
+    body.extend_from_slice(payload);
+    let mut o = crc32(&body).to_le_bytes().to_vec();
+    o.extend_from_slice(&body);
+    o
+}
+
+/// (header bit, partial, payload, total bytes) or None when there is no valid record here
+pub fn unframe(b: &[u8]) -> Option<(bool, bool, &[u8], usize)> {
+    if b.len() < 8 {
+        return None;
+    }
+    let ck = u32::from_le_bytes(b[0..4].try_into().unwrap());
+    let word = u32::from_le_bytes(b[4..8].try_into().unwrap());
+    let len = (word >> 2) as usize;
+    if len == 0 || b.len() - 8 < len {
+        return None;
+    }
+    if crc32(&b[4..8 + len]) != ck {
+        return None;
+    }
+    Some((word & 1 == 1, word & 2 == 2, &b[8..8 + len], 8 + len))
+}
+
+// ------------------------------------------------------------------------------- reader
+
+#[derive(Clone, Debug, Default)]
+pub struct JsState {
+    pub header: JsHeader,
+    pub header_slot: u8,
+    pub header_bit: bool,
+    pub entries: Vec<JsEntry>,
+    pub entries_bytes: usize,
+    pub length: u64,
+    pub fork: u64,
+    pub byte_length: u64,
+    pub signature: Vec<u8>,
+    pub held: BTreeMap<u64, Vec<u8>>,
+    pub bits: std::collections::BTreeSet<u64>,
+    pub nodes: BTreeMap<u64, (u64, H32)>,
+    pub stale_entries_skipped: bool,
+    pub partial_dropped: usize,
+}
+
+fn file_node(tree: &[u8], i: u64) -> Option<(u64, H32)> {
+    let off = (i as usize).checked_mul(40)?;
+    if off + 40 > tree.len() {
+        return None;
+    }
+    let size = u64::from_le_bytes(tree[off..off + 8].try_into().unwrap());
+    let hash: H32 = tree[off + 8..off + 40].try_into().unwrap();
+    if hash == [0u8; 32] {
+        return None;
+    }
+    Some((size, hash))
+}
+
+/// Open the four files the way the JavaScript implementation does and reconstruct the log.
+pub fn read_store(files: &Files) -> Result<JsState, String> {
+    let oplog = &files[OPLOG];
+    let h1 = unframe(&oplog[..oplog.len().min(4096)])
+        .and_then(|(bit, _, p, _)| decode_header(p).ok().map(|h| (bit, h)));
+    let h2 = if oplog.len() > 4096 {
+        unframe(&oplog[4096..oplog.len().min(8192)])
+            .and_then(|(bit, _, p, _)| decode_header(p).ok().map(|h| (bit, h)))
+    } else {
+        None
+    };
+    let bits: [bool; 2] = match (&h1, &h2) {
+        (None, None) => return Err("no valid header".into()),
+        (Some((b1, _)), None) => [*b1, *b1],
+        (None, Some((b2, _))) => [!*b2, *b2],
+        (Some((b1, _)), Some((b2, _))) => [*b1, *b2],
+    };
+    let cur = bits[0] != bits[1];
+    let mut st = JsState::default();
+    st.header_bit = cur;
+    st.header = if cur { h2.unwrap().1 } else { h1.unwrap().1 };
+    st.header_slot = cur as u8;
+    // entries
+    let mut pos = 8192usize;
+    let mut decoded: Vec<JsEntry> = vec![];
+    while pos < oplog.len() {
+        let Some((bit, partial, payload, total)) = unframe(&oplog[pos..]) else { break };
+        if bit != cur {
+            st.stale_entries_skipped = true;
+            break;
+        }
+        let mut e = match decode_entry(payload) {
+            Ok(e) => e,
+            Err(_) => break,
+        };
+        e.partial = partial;
+        e.byte_length = total;
+        decoded.push(e);
+        pos += total;
+    }
+    while decoded.last().map(|e| e.partial).unwrap_or(false) {
+        decoded.pop();
+        st.partial_dropped += 1;
+    }
+    st.entries_bytes = decoded.iter().map(|e| e.byte_length).sum();
+    // replay
+    st.length = st.header.length;
+    st.fork = st.header.fork;
+    st.signature = st.header.signature.clone();
+    let bf = &files[BITFIELD];
+    for (i, byte) in bf.iter().enumerate() {
+        if *byte != 0 {
+            for k in 0..8 {
+                if byte >> k & 1 == 1 {
+                    st.bits.insert(i as u64 * 8 + k);
+                }
+            }
+        }
+    }
+    for e in &decoded {
+        for (i, s, h) in &e.tree_nodes {
+            st.nodes.insert(*i, (*s, *h));
+        }
+        if let Some((drop, start, len)) = e.bitfield {
+            for i in start..start.saturating_add(len).min(start + (1 << 22)) {
+                if drop {
+                    st.bits.remove(&i);
+                } else {
+                    st.bits.insert(i);
+                }
+            }
+        }
+        if let Some((fork, _anc, len, sig)) = &e.upgrade {
+            st.fork = *fork;
+            st.length = *len;
+            st.signature = sig.clone();
+        }
+    }
+    st.entries = decoded;
+    // byte length from the roots' sizes
+    let tree = &files[TREE];
+    let node = |st: &JsState, i: u64| -> Option<(u64, H32)> {
+        st.nodes.get(&i).copied().or_else(|| file_node(tree, i))
+    };
+    let mut bl = 0u64;
+    for r in ft::full_roots(st.length) {
+        match node(&st, r) {
+            Some((s, _)) => bl += s,
+            None => return Err(format!("root node {r} for length {} missing in tree store/entries", st.length)),
+        }
+    }
+    st.byte_length = bl;
+    // blocks
+    let data = &files[DATA];
+    let bits: Vec<u64> = st.bits.iter().copied().collect();
+    for i in bits {
+        if i >= st.length {
+            continue; // judged separately
+        }
+        let (size, _) = node(&st, 2 * i).ok_or(format!("leaf node of held block {i} missing"))?;
+        // offset: sizes of roots to the left + left siblings on the path
+        let mut off = 0u64;
+        let mut found = false;
+        for r in ft::full_roots(st.length) {
+            if ft::right_span(r) < 2 * i {
+                off += node(&st, r).ok_or(format!("root {r} missing"))?.0;
+                continue;
+            }
+            // descend
+            let mut cur = r;
+            while cur != 2 * i {
+                let l = ft::left_child(cur).unwrap();
+                let rr = ft::right_child(cur).unwrap();
+                if 2 * i <= ft::right_span(l) {
+                    cur = l;
+                } else {
+                    off += node(&st, l).ok_or(format!("node {l} needed for the offset of block {i} missing"))?.0;
+                    cur = rr;
+                }
+            }
+            found = true;
+            break;
+        }
+        if !found {
+            return Err(format!("block {i} not under any root"));
+        }
+        let v = if size == 0 {
+            vec![]
+        } else {
+            if (off + size) as usize > data.len() {
+                return Err(format!("block {i} at {off}+{size} beyond data file ({})", data.len()));
+            }
+            data[off as usize..(off + size) as usize].to_vec()
+        };
+        st.held.insert(i, v);
+    }
+    Ok(st)
+}
+
+/// C06 reader direction: the four files must reconstruct exactly what the API reports.
+pub fn judge_layout(w: &mut World, n: usize) {
+    if w.nodes[n].core.is_none() {
+        return;
+    }
+    let files = w.files(n);
+    let info = w.nodes[n].core.as_ref().unwrap().info();
+    let pk = w.nodes[n].core.as_ref().unwrap().key_pair().public.to_bytes();
+    let writable = w.nodes[n].core.as_ref().unwrap().key_pair().secret.is_some();
+    let st = match read_store(&files) {
+        Ok(s) => s,
+        Err(e) => {
+            w.viol("C06.read", format!("node {n}: independent JS-layout reader cannot open the storage: {e}"));
+            return;
+        }
+    };
+    if !st.entries.is_empty() {
+        w.stats.probe("layout_with_unflushed_entries");
+        for e in &st.entries {
+            let fl = (if e.tree_nodes.is_empty() { 0 } else { 2 })
+                | (if e.upgrade.is_some() { 4 } else { 0 })
+                | (if e.bitfield.is_some() { 8 } else { 0 });
+            w.stats.probe(&format!("entry_flags_{fl}"));
+        }
+    }
+    w.stats.probe(if st.header_slot == 0 { "header_in_slot_0" } else { "header_in_slot_1" });
+    let mut bad = |w: &mut World, m: String| w.viol("C06.read", format!("node {n}: {m}"));
+    if st.length != info.length || st.byte_length != info.byte_length || st.fork != info.fork {
+        bad(w, format!(
+            "layout says length {} byte_length {} fork {}, API says {} {} {}",
+            st.length, st.byte_length, st.fork, info.length, info.byte_length, info.fork
+        ));
+    }
+    if st.header.public_key != pk || st.header.key != pk {
+        bad(w, "stored public key differs from the API's".into());
+    }
+    if st.header.secret_key.is_some() != writable {
+        bad(w, format!("stored secret key present = {}, API writeable = {}", st.header.secret_key.is_some(), writable));
+    }
+    if let Some(sk) = &st.header.secret_key {
+        if sk.len() != 64 || sk[32..] != pk {
+            bad(w, "stored secret key is not the 64-byte seed||public form".into());
+        }
+    }
+    // has/get through the API vs the layout
+    let upto = info.length + 2;
+    let mut bad_n = 0;
+    for i in 0..upto {
+        let has = w.nodes[n].core.as_ref().unwrap().has(i);
+        let lay = st.held.contains_key(&i);
+        if has != lay && bad_n < 3 {
+            bad_n += 1;
+            bad(w, format!("block {i}: API has() = {has}, layout bit = {lay}"));
+        }
+    }
+    if st.bits.iter().any(|b| *b >= st.length) {
+        let b = st.bits.iter().find(|b| **b >= st.length).unwrap();
+        bad(w, format!("bitfield has bit {b} set at or beyond length {}", st.length));
+    }
+    // block bytes: compare with the model (which C01/C03 tie to the API)
+    let model = w.nodes[n].model.clone();
+    for (i, v) in &st.held {
+        if let Some(m) = model.get(*i) {
+            if m != v && bad_n < 6 {
+                bad_n += 1;
+                bad(w, format!("block {i}: layout bytes differ from the appended bytes"));
+            }
+        }
+    }
+}
+
+// ------------------------------------------------------------------------------- golden
+
+const GOLDEN_PK: [u8; 32] = [
+    0x97, 0x60, 0x6c, 0xaa, 0xd2, 0xb0, 0x8c, 0x1d, 0x5f, 0xe1, 0x64, 0x2e, 0xee, 0xa5, 0x62, 0xcb,
+    0x91, 0xd6, 0x55, 0xe2, 0x00, 0xc8, 0xd4, 0x3a, 0x32, 0x09, 0x1d, 0x06, 0x4a, 0x33, 0x1e, 0xe3,
+];
+const GOLDEN_SK: [u8; 32] = [
+    0x27, 0xe6, 0x74, 0x25, 0xc1, 0xff, 0xd1, 0xd9, 0xee, 0x62, 0x5c, 0x96, 0x2b, 0x57, 0x13, 0xc3,
+    0x51, 0x0b, 0x71, 0x14, 0x15, 0xf3, 0x31, 0xf6, 0xfa, 0x9e, 0xf2, 0xbf, 0x23, 0x5f, 0x2f, 0xfe,
+];
+/// SHA-256 of (bitfield, data, oplog, tree) after each interop step, certified against the
+/// JavaScript implementation (copied from tests/js_interop.rs at the pinned commit).
+const GOLDEN: [[Option<&str>; 4]; 5] = [
+    [None, None, Some("A30BD5326139E8650F3D53CB43291945AE92796ABAEBE1365AC1B0C37D008936"), None],
+    [
+        Some("0E2E1FF956A39192CBB68D2212288FE75B32733AB0C442B9F0471E254A0382A2"),
+        Some("872E4E50CE9990D8B041330C47C9DDD11BEC6B503AE9386A99DA8584E9BB12C4"),
+        Some("C65A6867991D29FCF98B4E4549C1039CB5B3C63D891BA1EA4F0BB47211BA4B05"),
+        Some("8577B24ADC763F65D562CD11204F938229AD47F27915B0821C46A0470B80813A"),
+    ],
+    [
+        Some("DEC1593A7456C8C9407B9B8B9C89682DFFF33C3892BCC9D9F06956FEE0A1B949"),
+        Some("99EB5BC150A1102A7E50D15F90594660010B7FE719D54129065D1D417AA5015A"),
+        Some("5DCE3C7C86B0E129B32E5A07CA3DF668006A42F9D75399D6E4DB3F18256B8468"),
+        Some("38788609A8634DC8D34F9AE723F3169ADB20768ACFDFF266A43B7E217750DD1E"),
+    ],
+    [
+        Some("9B844E9378A7D13D6CDD4C1FF12FB313013E5CC472C6CB46497033563FE6B8F1"),
+        Some("AF3AC31CFBE1733C62496CF8E856D5F1EFB4B06CBF1E74204221C89E2F3E1CDE"),
+        Some("46E01E9CECDF6E7EA85807F65C5F3CEED96583F3BF97BC6835A6DA05E39FE8E9"),
+        Some("26339A21D606A1F731B90E8001030651D48378116B06A9C1EF87E2538194C2C6"),
+    ],
+    [
+        Some("40C9CED82AE0B7A397C9FDD14EEB7F70B74E8F1229F3ED931852591972DDC3E0"),
+        Some("D9FFCCEEE9109751F034ECDAE328672956B90A6E0B409C3173741B8A5D0E75AB"),
+        Some("803384F10871FB60E53A7F833E6E1E9729C6D040D960164077963092BBEBA274"),
+        Some("26339A21D606A1F731B90E8001030651D48378116B06A9C1EF87E2538194C2C6"),
+    ],
+];
+
+fn sha_hex(b: &[u8]) -> Option<String> {
+    use sha2::{Digest, Sha256};
+    if b.is_empty() {
+        return None;
+    }
+    let h = Sha256::digest(b);
+    Some(h.iter().map(|x| format!("{x:02X}")).collect())
+}
+
+/// The five-step interop scenario, Rust-only, on SimDisk; file hashes must equal the certified ones.
+pub fn run_golden() -> CaseOut {
+    use crate::exec::{self, Guarded};
+    use crate::world::{open_core, CacheMode};
+    let mut out = CaseOut::default();
+    out.nontrivial = true;
+    let disk = crate::disk::Disk::new();
+    let sk = SigningKey::from_bytes(&GOLDEN_SK);
+    let mut viols: Vec<Viol> = vec![];
+    if sk.verifying_key().to_bytes() != GOLDEN_PK {
+        viols.push(Viol { clause: "C06.golden".into(), step: -1, msg: "golden key pair mismatch".into() });
+    }
+    let kp = hypercore::PartialKeypair { public: sk.verifying_key(), secret: Some(sk) };
+    let d = disk.clone();
+    let g = exec::run(async move {
+        let mut hashes: Vec<Files> = vec![];
+        // step 1: create
+        {
+            let _c = open_core(&d, Some(kp), CacheMode::Off).await?;
+        }
+        hashes.push(d.files());
+        // step 2
+        {
+            let mut c = open_core(&d, None, CacheMode::Off).await?;
+            let batch: &[&[u8]] = &[b"Hello", b"World"];
+            c.append_batch(batch).await?;
+        }
+        hashes.push(d.files());
+        // step 3
+        {
+            let mut c = open_core(&d, None, CacheMode::Off).await?;
+            let _ = c.get(0).await?;
+            let _ = c.get(1).await?;
+            c.append(b"first").await?;
+            let batch: &[&[u8]] = &[b"second", b"third"];
+            c.append_batch(batch).await?;
+            let multi = vec![0x61u8; 4096 * 3];
+            c.append(&multi).await?;
+            let empty: Vec<Vec<u8>> = vec![];
+            c.append_batch(&empty).await?;
+            for i in 2..6 {
+                let _ = c.get(i).await?;
+            }
+        }
+        hashes.push(d.files());
+        // step 4
+        {
+            let mut c = open_core(&d, None, CacheMode::Off).await?;
+            for i in 0..5u8 {
+                c.append(&[i]).await?;
+            }
+        }
+        hashes.push(d.files());
+        // step 5
+        {
+            let mut c = open_core(&d, None, CacheMode::Off).await?;
+            c.clear(5, 6).await?;
+            c.clear(7, 9).await?;
+            let _ = c.info();
+            for i in [5u64, 7, 8, 4] {
+                let _ = c.get(i).await?;
+            }
+        }
+        hashes.push(d.files());
+        Ok::<Vec<Files>, hypercore::HypercoreError>(hashes)
+    });
+    match g {
+        Guarded::Done(Ok(snaps)) => {
+            for (step, files) in snaps.iter().enumerate() {
+                let got = [
+                    sha_hex(&files[BITFIELD]),
+                    sha_hex(&files[DATA]),
+                    sha_hex(&files[OPLOG]),
+                    sha_hex(&files[TREE]),
+                ];
+                for (k, name) in ["bitfield", "data", "oplog", "tree"].iter().enumerate() {
+                    let exp = GOLDEN[step][k].map(|s| s.to_string());
+                    if got[k] != exp {
+                        viols.push(Viol {
+                            clause: "C06.golden".into(),
+                            step: step as i64 + 1,
+                            msg: format!(
+                                "interop step {}: SHA-256 of the {name} file is {:?}, certified value is {:?}",
+                                step + 1,
+                                got[k],
+                                exp
+                            ),
+                        });
+                    }
+                }
+                out.count("golden_hashes_compared", 4);
+            }
+        }
+        Guarded::Done(Err(e)) => viols.push(Viol { clause: "C06.golden".into(), step: -1, msg: format!("interop scenario failed: {e}") }),
+        Guarded::Panic(m) | Guarded::Hang(m) => {
+            viols.push(Viol { clause: "C06.golden".into(), step: -1, msg: format!("interop scenario panicked: {m}") })
+        }
+    }
+    out.viols = viols;
+    out
+}
+
+// ------------------------------------------------------------------------------- writer
+
+#[derive(Clone, Debug, Serialize, Deserialize, PartialEq)]
+pub enum JsOp {
+    Append(Vec<Blk>),
+    Clear(u64, u64),
+}
+
+#[derive(Clone, Debug, Serialize, Deserialize, PartialEq, Default)]
+pub struct JsStoreSpec {
+    pub key_seed: u64,
+    /// operations already folded into header / tree / bitfield files
+    pub flushed: Vec<JsOp>,
+    /// operations present only as oplog entries (one entry each)
+    pub entries: Vec<JsOp>,
+    /// number of header writes so far (decides slot and bit parity; >= 1)
+    pub header_writes: u32,
+    /// 0 = both slots valid (older one in the other slot), 1 = other slot empty/absent,
+    /// 2 = other slot holds garbage with a bad checksum
+    pub other_slot: u8,
+    /// an unfinished atomic batch after the complete entries: these ops are written as
+    /// entries with the partial flag set and must be ignored by the opener
+    pub trailing_partial: Vec<JsOp>,
+    /// bytes of a cut (half-written) entry at the very end
+    pub cut_tail: u32,
+    /// stale entries (other header bit) left after the valid ones, as after a crash between
+    /// header write and truncate
+    pub stale_tail: Vec<JsOp>,
+    /// mark the complete entries as one atomic batch (partial flag on all but the last)
+    pub atomic: bool,
+    pub read_only: bool,
+}
+
+struct Builder {
+    key: SigningKey,
+    blocks: Vec<Vec<u8>>,
+    tree: RefTree,
+    model: Model,
+}
+
+impl Builder {
+    /// apply an op to the model and return the entry JS would log for it
+    fn apply(&mut self, op: &JsOp) -> JsEntry {
+        match op {
+            JsOp::Append(blks) => {
+                let start = self.blocks.len() as u64;
+                let before_nodes: Vec<bool> = self.tree.nodes.iter().map(|n| n.is_some()).collect();
+                let data: Vec<Vec<u8>> = blks.iter().map(payload).collect();
+                for b in &data {
+                    self.tree.push(b);
+                    self.blocks.push(b.clone());
+                }
+                self.model.append(&data);
+                let len = self.blocks.len() as u64;
+                let mut nodes = vec![];
+                for (i, n) in self.tree.nodes.iter().enumerate() {
+                    if let Some((h, s)) = n {
+                        if !before_nodes.get(i).copied().unwrap_or(false) {
+                            nodes.push((i as u64, *s, *h));
+                        }
+                    }
+                }
+                let sig = self.key.sign(&self.tree.signable(len, 0)).to_bytes().to_vec();
+                JsEntry {
+                    tree_nodes: nodes,
+                    upgrade: Some((0, start, len, sig)),
+                    bitfield: Some((false, start, len - start)),
+                    ..Default::default()
+                }
+            }
+            JsOp::Clear(s, e) => {
+                self.model.clear(*s, *e);
+                JsEntry { bitfield: Some((true, *s, e - s)), ..Default::default() }
+            }
+        }
+    }
+}
+
+/// Lays out storage the way the JavaScript implementation would; returns the files and the
+/// state an opener must reconstruct.
+pub fn write_store(spec: &JsStoreSpec) -> (Files, Model, SigningKey) {
+    let key = crate::world::key_from_seed(spec.key_seed);
+    let mut b = Builder { key: key.clone(), blocks: vec![], tree: RefTree::new(), model: Model::new(!spec.read_only) };
+    for op in &spec.flushed {
+        b.apply(op);
+    }
+    let mut files: Files = Default::default();
+    // flushed state -> tree, bitfield
+    let flushed_len = b.blocks.len() as u64;
+    for (i, n) in b.tree.nodes.iter().enumerate() {
+        if let Some((h, s)) = n {
+            let off = i * 40;
+            if files[TREE].len() < off + 40 {
+                files[TREE].resize(off + 40, 0);
+            }
+            files[TREE][off..off + 8].copy_from_slice(&s.to_le_bytes());
+            files[TREE][off + 8..off + 40].copy_from_slice(h);
+        }
+    }
+    if flushed_len > 0 {
+        let pages = (flushed_len as usize + 32767) / 32768;
+        files[BITFIELD].resize(pages * 4096, 0);
+        for (i, _) in b.model.held.iter() {
+            files[BITFIELD][(*i / 8) as usize] |= 1 << (i % 8);
+        }
+    }
+    let pk = key.verifying_key().to_bytes().to_vec();
+    let mut sk64 = key.to_bytes().to_vec();
+    sk64.extend_from_slice(&pk);
+    let mk_header = |b: &Builder, len: u64| -> JsHeader {
+        JsHeader {
+            key: pk.clone(),
+            manifest_pk: Some(pk.clone()),
+            public_key: pk.clone(),
+            secret_key: if spec.read_only { None } else { Some(sk64.clone()) },
+            fork: 0,
+            length: len,
+            root_hash: if len == 0 { vec![] } else { b.tree.root_hash(len).to_vec() },
+            signature: if len == 0 { vec![] } else { b.key.sign(&b.tree.signable(len, 0)).to_bytes().to_vec() },
+            contiguous_length: b.model.contiguous(),
+        }
+    };
+    // header bits: start [1,0]; write k goes to slot (k odd -> first, even -> second) flipping
+    // that slot's bit: [1,0] -> [0,0] -> [0,1] -> [1,1] -> [1,0] ...
+    let mut bits = [true, false];
+    let mut last_slot = 0usize;
+    let writes = spec.header_writes.max(1);
+    for _ in 0..writes {
+        let slot = if bits[0] != bits[1] { 0 } else { 1 };
+        bits[slot] = !bits[slot];
+        last_slot = slot;
+    }
+    let cur_bit = bits[0] != bits[1];
+    let header_now = mk_header(&b, flushed_len);
+    let mut oplog = vec![0u8; 8192];
+    let put = |oplog: &mut Vec<u8>, slot: usize, bytes: &[u8]| {
+        let n = bytes.len().min(4096);
+        oplog[slot * 4096..slot * 4096 + n].copy_from_slice(&bytes[..n]);
+    };
+    put(&mut oplog, last_slot, &frame(&encode_header(&header_now), bits[last_slot], false));
+    let other = 1 - last_slot;
+    match spec.other_slot {
+        0 if writes >= 2 => {
+            // an older header (empty core header is a valid older state)
+            let older = JsHeader { length: 0, root_hash: vec![], signature: vec![], contiguous_length: 0, ..header_now.clone() };
+            put(&mut oplog, other, &frame(&encode_header(&older), bits[other], false));
+        }
+        2 => {
+            let mut junk = frame(&encode_header(&header_now), bits[other], false);
+            let l = junk.len();
+            junk[l - 3] ^= 0x55;
+            put(&mut oplog, other, &junk);
+        }
+        _ => {
+            // absent: when the current header lives in the second slot the first must exist in JS
+            // (first write always goes to the first slot), so keep this combination realistic
+            if last_slot == 1 {
+                let older = JsHeader { length: 0, root_hash: vec![], signature: vec![], contiguous_length: 0, ..header_now.clone() };
+                put(&mut oplog, other, &frame(&encode_header(&older), bits[other], false));
+            }
+        }
+    }
+    // complete entries
+    let n_entries = spec.entries.len();
+    for (i, op) in spec.entries.iter().enumerate() {
+        let e = b.apply(op);
+        let partial = spec.atomic && i + 1 < n_entries;
+        oplog.extend_from_slice(&frame(&encode_entry(&e), cur_bit, partial));
+    }
+    let expected = b.model.clone();
+    // what follows must be ignored by an opener
+    let mut ghost = Builder { key: key.clone(), blocks: b.blocks.clone(), tree: b.tree.clone(), model: b.model.clone() };
+    for op in &spec.trailing_partial {
+        let e = ghost.apply(op);
+        oplog.extend_from_slice(&frame(&encode_entry(&e), cur_bit, true));
+    }
+    for op in &spec.stale_tail {
+        let e = ghost.apply(op);
+        oplog.extend_from_slice(&frame(&encode_entry(&e), !cur_bit, false));
+    }
+    if spec.cut_tail > 0 {
+        let e = ghost.apply(&JsOp::Append(vec![Blk { tag: 0x00ff_ff00, len: 5 }]));
+        let f = frame(&encode_entry(&e), cur_bit, false);
+        let n = (spec.cut_tail as usize).min(f.len() - 1);
+        oplog.extend_from_slice(&f[..n]);
+    }
+    files[OPLOG] = oplog;
+    // data: JS writes block data before the log entry, so every block (ghost ones too) is there
+    for blk in &ghost.blocks {
+        files[DATA].extend_from_slice(blk);
+    }
+    (files, expected, key)
+}
+
+pub fn gen_js_store(r: &mut crate::rng::Rng, idx: u64) -> JsStoreSpec {
+    let mut g = crate::gen::G::new(idx);
+    let mut len = 0u64;
+    let mut ops = |r: &mut crate::rng::Rng, g: &mut crate::gen::G, n: u64, len: &mut u64| -> Vec<JsOp> {
+        let mut v = vec![];
+        for _ in 0..n {
+            if *len > 0 && r.chance(1, 4) {
+                let s = r.below(*len);
+                let e = (s + 1 + r.below(3)).min(*len);
+                v.push(JsOp::Clear(s, e));
+            } else {
+                let k = r.range(1, 4);
+                let blks: Vec<Blk> = (0..k).map(|_| g.blk(r)).collect();
+                *len += k;
+                v.push(JsOp::Append(blks));
+            }
+        }
+        v
+    };
+    let nf = r.below(5);
+    let flushed = ops(r, &mut g, nf, &mut len);
+    let ne = r.below(5);
+    let entries = ops(r, &mut g, ne, &mut len);
+    let mut spec = JsStoreSpec {
+        key_seed: idx ^ 0x5eed,
+        flushed,
+        entries,
+        header_writes: r.range(1, 6) as u32,
+        other_slot: r.below(3) as u8,
+        atomic: r.chance(1, 4),
+        read_only: r.chance(1, 8),
+        ..Default::default()
+    };
+    match r.below(6) {
+        0 => {
+            let n = r.range(1, 3);
+            spec.trailing_partial = ops(r, &mut g, n, &mut len);
+        }
+        1 => spec.cut_tail = r.range(1, 120) as u32,
+        2 => {
+            let n = r.range(1, 2);
+            spec.stale_tail = ops(r, &mut g, n, &mut len);
+        }
+        3 => {
+            let n = r.range(1, 2);
+            spec.trailing_partial = ops(r, &mut g, n, &mut len);
+            spec.cut_tail = r.range(1, 60) as u32;
+        }
+        _ => {}
+    }
+    spec
+}
+
+/// C06 writer direction: the crate must open reference-encoded storage to the same state.
+pub fn run_js_store(spec: &JsStoreSpec) -> CaseOut {
+    use crate::exec;
+    use crate::world::{open_core, CacheMode, Res};
+    let mut out = CaseOut::default();
+    out.nontrivial = !spec.entries.is_empty() || !spec.flushed.is_empty();
+    let (files, expected, key) = write_store(spec);
+    // self-consistency of the reference: its own reader must reconstruct the expected state
+    match read_store(&files) {
+        Ok(st) => {
+            let same = st.length == expected.length
+                && st.byte_length == expected.byte_length
+                && st.held == expected.held;
+            if !same {
+                out.aborted = Some("reference writer/reader disagree (harness bug)".into());
+                eprintln!("harness error: jsfmt writer/reader disagree for {spec:?}");
+                std::process::exit(2);
+            }
+        }
+        Err(e) => {
+            eprintln!("harness error: jsfmt reader cannot read jsfmt writer output: {e} for {spec:?}");
+            std::process::exit(2);
+        }
+    }
+    if !spec.trailing_partial.is_empty() {
+        out.count("foreign_writer_died_mid_batch", 1);
+    }
+    if spec.cut_tail > 0 {
+        out.count("foreign_cut_last_entry", 1);
+    }
+    if !spec.stale_tail.is_empty() {
+        out.count("foreign_stale_entries", 1);
+    }
+    let disk = crate::disk::Disk::from_files(files);
+    let g = exec::run(async { open_core(&disk, None, CacheMode::Off).await });
+    let mut viols = vec![];
+    match Res::from(g) {
+        Res::Ok(core) => {
+            let mut core = Some(core);
+            let o = crate::crash::observe(&mut core, expected.length + 2, &key.verifying_key());
+            if let Some(d) = &o.died {
+                viols.push(Viol { clause: "C06.write".into(), step: -1, msg: format!("core opened on JS-laid-out storage is unusable: {d}") });
+            } else if let Some(d) = crate::crash::diff(&o, &expected) {
+                viols.push(Viol { clause: "C06.write".into(), step: -1, msg: format!("core opened on JS-laid-out storage differs from the state JS would see: {d}") });
+            }
+            if !o.pk_ok {
+                viols.push(Viol { clause: "C06.write".into(), step: -1, msg: "public key not recovered".into() });
+            }
+        }
+        other => {
+            viols.push(Viol {
+                clause: "C06.write".into(),
+                step: -1,
+                msg: format!("JS-laid-out storage cannot be opened: {}", crate::world::brief_unit(&other)),
+            });
+        }
+    }
+    out.viols = viols;
+    out
+}
+
+#[allow(dead_code)]
+fn _verify_unused(pk: &ed25519_dalek::VerifyingKey, m: &[u8], s: &ed25519_dalek::Signature) -> bool {
+    pk.verify(m, s).is_ok()
 }
